@@ -657,11 +657,11 @@ func (w *world) postCheck(c *reconCtx, ctx string) {
 	if !c.Manual && !cur.Active {
 		w.fail("%s\nAFTER-ACTIVE: activation is not manual but current revision %s is not Active; revisions: %s\nhistory:\n  %s", ctx, cur.Name, revString(revs), strings.Join(w.hist, "\n  "))
 	}
-	if cur.Active {
-		for _, r := range revs {
-			if r.Name != cur.Name && r.Active {
-				w.fail("%s\nAFTER-ONE-ACTIVE: current revision %s is Active and so is %s; revisions: %s\nhistory:\n  %s", ctx, cur.Name, r.Name, revString(revs), strings.Join(w.hist, "\n  "))
-			}
+	// "deactivates every other revision of a package": reconciler.go documents that this is done
+	// "regardless of the package's revision activation policy", so it is judged under Manual too.
+	for _, r := range revs {
+		if r.Name != cur.Name && r.Active {
+			w.fail("%s\nAFTER-OTHERS-INACTIVE: revision %s is not the current revision (%s) but is still Active after a successful reconcile; revisions: %s\nhistory:\n  %s", ctx, r.Name, cur.Name, revString(revs), strings.Join(w.hist, "\n  "))
 		}
 	}
 }
